@@ -3,6 +3,7 @@ package c19
 import (
 	"encoding/json"
 	"fmt"
+	"math"
 	"strings"
 
 	"github.com/emersion/go-ical"
@@ -24,6 +25,18 @@ type c19Comp struct {
 	// 3.3.11); the UID it denotes is its unescaped form. Two spellings of one
 	// value ("\n" and "\N" both stand for a line break) are the same UID.
 	Spelled bool `json:"spelled,omitempty"`
+	// UID2: a second UID property with ANOTHER value in the same component.
+	// Which of the two the component "carries" is not said by the statement:
+	// accept/reject is left open (like a malformed UID).
+	UID2 string `json:"uid2,omitempty"`
+}
+
+// c19Fill stands for N copies of Comp placed before Comps[At] (a compact
+// spelling of calendars with very many components).
+type c19Fill struct {
+	N    int     `json:"n"`
+	Comp c19Comp `json:"comp"`
+	At   int     `json:"at"`
 }
 
 // c19Unescape is the TEXT unescaping of RFC 5545 3.3.11 for values that use
@@ -69,7 +82,50 @@ type c19Case struct {
 	// here, resp. a TZID no VTIMEZONE defines), "valarm" (a VALARM without UID
 	// nested in every VEVENT/VTODO), "x-method" (a calendar property
 	// X-METHOD, which is not METHOD), "props" (SUMMARY, RRULE, ATTENDEE ...).
+	//
+	// Nested components are not components of the calendar ("all of its
+	// components other than VTIMEZONE are of one single type" would otherwise
+	// refuse every VEVENT with a VALARM and every VTIMEZONE with a STANDARD
+	// part), so what they carry plays no part either: "nested-uid-same" (every
+	// component holds a sub-component - VALARM in VEVENT/VTODO, DAYLIGHT in
+	// VTIMEZONE, X-SUB elsewhere - whose UID is the parent's, or u1),
+	// "nested-uid-other" (the sub-component has a UID of its own, as RFC 9074
+	// gives to VALARM, and holds a further sub-component with yet another UID).
+	//
+	// go-ical keeps properties in a map from name to a list of values; a name
+	// whose list is empty is a property the calendar does not have (Props.Get,
+	// Props.Values and the encoder all say so): "nil-entries" (every component
+	// and the calendar get a nil list for UID resp. METHOD where they have no
+	// such property, and for X-GONE), "emptied-entries" (the same, the list
+	// being one that was filled and then filtered down to nothing in place).
+	//
+	// "doubled" (every UID property, and METHOD, stands twice with the same
+	// value), "uid-params" (UID properties carry X-P=1 / LANGUAGE=en /
+	// VALUE=TEXT, none of which changes the value), "lower-case-names"
+	// (text path only: property and component names in lower case).
 	Extras []string `json:"extras,omitempty"`
+	// Fill: see c19Fill.
+	Fill *c19Fill `json:"fill,omitempty"`
+}
+
+// all is the sequence of components of the calendar, Fill expanded.
+func (cs c19Case) all() []c19Comp {
+	if cs.Fill == nil || cs.Fill.N <= 0 {
+		return cs.Comps
+	}
+	at := cs.Fill.At
+	if at < 0 {
+		at = 0
+	}
+	if at > len(cs.Comps) {
+		at = len(cs.Comps)
+	}
+	out := make([]c19Comp, 0, len(cs.Comps)+cs.Fill.N)
+	out = append(out, cs.Comps[:at]...)
+	for i := 0; i < cs.Fill.N; i++ {
+		out = append(out, cs.Fill.Comp)
+	}
+	return append(out, cs.Comps[at:]...)
 }
 
 func (cs c19Case) has(x string) bool {
@@ -89,16 +145,16 @@ func c19Model(cs c19Case) (accept bool, typ, uid string, open bool) {
 	if cs.Method {
 		return false, "", "", false
 	}
+	comps := cs.all()
 	types := map[string]bool{}
 	uids := map[string]bool{}
-	for _, c := range cs.Comps {
-		if c.RawUID || c.Binary {
-			// a UID that is not valid TEXT: outside the statement's domain for
-			// accept/reject (only "rejection returns empty results" is checked)
-			return true, "", "", true
-		}
+	if c19HasBadUID(cs) {
+		// a UID that is not valid TEXT, or two different UIDs in one
+		// component: outside the statement's domain for accept/reject (only
+		// "rejection returns empty results" is checked)
+		return true, "", "", true
 	}
-	for _, c := range cs.Comps {
+	for _, c := range comps {
 		if c.Type != "VTIMEZONE" {
 			types[c.Type] = true
 			typ = c.Type
@@ -119,47 +175,147 @@ func c19Model(cs c19Case) (accept bool, typ, uid string, open bool) {
 	return true, typ, uid, false
 }
 
-func c19Build(cs c19Case) (*ical.Calendar, error) {
-	if cs.ViaText {
-		var sb strings.Builder
-		sb.WriteString("BEGIN:VCALENDAR\r\nVERSION:2.0\r\nPRODID:-//verif//EN\r\n")
-		if cs.Method {
+// c19Sub is a nested component of the case's extras.
+type c19Sub struct {
+	name, uid string
+	inner     *c19Sub
+}
+
+func c19Plain(u string) bool {
+	return u != "" && !strings.ContainsAny(u, ",;\\\r\n\t ")
+}
+
+// c19Subs lists the nested components component i (c) gets from the extras
+// of the case, apart from the UID-less VALARM of "valarm".
+func c19Subs(cs c19Case, i int, c c19Comp) []c19Sub {
+	name := "X-SUB"
+	switch c.Type {
+	case "VEVENT", "VTODO":
+		name = "VALARM"
+	case "VTIMEZONE":
+		name = "DAYLIGHT"
+	}
+	var subs []c19Sub
+	if cs.has("nested-uid-same") {
+		u := "u1"
+		if !c.RawUID && !c.Binary && !c.Spelled && c19Plain(c.UID) {
+			u = c.UID
+		}
+		subs = append(subs, c19Sub{name: name, uid: u})
+	}
+	if cs.has("nested-uid-other") {
+		subs = append(subs, c19Sub{name: name, uid: fmt.Sprintf("sub-%d@nested", i), inner: &c19Sub{name: "X-INNER", uid: fmt.Sprintf("inner-%d@nested", i)}})
+	}
+	return subs
+}
+
+var c19UIDParams = [][2]string{{"X-P", "1"}, {"LANGUAGE", "en"}, {"VALUE", "TEXT"}}
+
+func c19LowerNames(text string) string {
+	lines := strings.Split(text, "\r\n")
+	for i, l := range lines {
+		j := strings.IndexAny(l, ";:")
+		if j < 0 {
+			continue
+		}
+		name := strings.ToLower(l[:j])
+		if name == "begin" || name == "end" {
+			lines[i] = strings.ToLower(l)
+		} else {
+			lines[i] = name + l[j:]
+		}
+	}
+	return strings.Join(lines, "\r\n")
+}
+
+func c19Text(cs c19Case) string {
+	var sb strings.Builder
+	times := 1
+	if cs.has("doubled") {
+		times = 2
+	}
+	sb.WriteString("BEGIN:VCALENDAR\r\nVERSION:2.0\r\nPRODID:-//verif//EN\r\n")
+	if cs.Method {
+		for k := 0; k < times; k++ {
 			sb.WriteString("METHOD:" + cs.MethodVal + "\r\n")
 		}
-		if cs.has("x-method") {
-			sb.WriteString("X-METHOD:PUBLISH\r\nCALSCALE:GREGORIAN\r\nX-WR-CALNAME:METHOD\r\n")
+	}
+	if cs.has("x-method") {
+		sb.WriteString("X-METHOD:PUBLISH\r\nCALSCALE:GREGORIAN\r\nX-WR-CALNAME:METHOD\r\n")
+	}
+	var writeSub func(s c19Sub)
+	writeSub = func(s c19Sub) {
+		sb.WriteString("BEGIN:" + s.name + "\r\nUID:" + s.uid + "\r\n")
+		switch s.name {
+		case "VALARM":
+			sb.WriteString("ACTION:DISPLAY\r\nTRIGGER:-PT5M\r\nDESCRIPTION:x\r\n")
+		case "DAYLIGHT":
+			sb.WriteString("DTSTART:19700329T020000\r\nTZOFFSETFROM:+0100\r\nTZOFFSETTO:+0200\r\n")
 		}
-		for _, c := range cs.Comps {
-			sb.WriteString("BEGIN:" + c.Type + "\r\n")
-			if c.UID != "" || c.RawUID {
-				// (a Spelled UID is written as it is spelled, like a raw one)
-				if c.Binary {
-					sb.WriteString("UID;VALUE=BINARY:" + c.UID + "\r\n")
-				} else {
-					sb.WriteString("UID:" + c.UID + "\r\n")
-				}
-			}
-			if c.Type == "VTIMEZONE" {
-				sb.WriteString("TZID:Europe/Paris\r\nBEGIN:STANDARD\r\nDTSTART:19701025T030000\r\nTZOFFSETFROM:+0200\r\nTZOFFSETTO:+0100\r\nEND:STANDARD\r\n")
-			} else {
-				sb.WriteString("DTSTAMP:20200101T000000Z\r\n")
-				if cs.has("tzid-match") {
-					sb.WriteString("DTSTART;TZID=Europe/Paris:20200101T100000\r\n")
-				}
-				if cs.has("tzid-other") {
-					sb.WriteString("DTSTART;TZID=America/Nowhere:20200101T100000\r\nDUE;TZID=\"Mars/Olympus Mons\":20200102T100000\r\n")
-				}
-				if cs.has("props") {
-					sb.WriteString("SUMMARY:method uid\\, vtimezone\r\nRRULE:FREQ=DAILY;COUNT=3\r\nATTENDEE;CN=UID:mailto:uid@example.com\r\nX-UID:other\r\nRELATED-TO:u2\r\n")
-				}
-				if cs.has("valarm") && (c.Type == "VEVENT" || c.Type == "VTODO") {
-					sb.WriteString("BEGIN:VALARM\r\nACTION:DISPLAY\r\nTRIGGER:-PT5M\r\nDESCRIPTION:x\r\nEND:VALARM\r\n")
-				}
-			}
-			sb.WriteString("END:" + c.Type + "\r\n")
+		if s.inner != nil {
+			writeSub(*s.inner)
 		}
-		sb.WriteString("END:VCALENDAR\r\n")
-		return ical.NewDecoder(strings.NewReader(sb.String())).Decode()
+		sb.WriteString("END:" + s.name + "\r\n")
+	}
+	for i, c := range cs.all() {
+		sb.WriteString("BEGIN:" + c.Type + "\r\n")
+		if c.UID != "" || c.RawUID {
+			// (a Spelled UID is written as it is spelled, like a raw one)
+			par := ""
+			if c.Binary {
+				par = ";VALUE=BINARY"
+			} else if cs.has("uid-params") {
+				p := c19UIDParams[i%len(c19UIDParams)]
+				par = ";" + p[0] + "=" + p[1]
+			}
+			for k := 0; k < times; k++ {
+				sb.WriteString("UID" + par + ":" + c.UID + "\r\n")
+			}
+		}
+		if c.UID2 != "" {
+			sb.WriteString("UID:" + c.UID2 + "\r\n")
+		}
+		if c.Type == "VTIMEZONE" {
+			sb.WriteString("TZID:Europe/Paris\r\nBEGIN:STANDARD\r\nDTSTART:19701025T030000\r\nTZOFFSETFROM:+0200\r\nTZOFFSETTO:+0100\r\nEND:STANDARD\r\n")
+		} else {
+			sb.WriteString("DTSTAMP:20200101T000000Z\r\n")
+			if cs.has("tzid-match") {
+				sb.WriteString("DTSTART;TZID=Europe/Paris:20200101T100000\r\n")
+			}
+			if cs.has("tzid-other") {
+				sb.WriteString("DTSTART;TZID=America/Nowhere:20200101T100000\r\nDUE;TZID=\"Mars/Olympus Mons\":20200102T100000\r\n")
+			}
+			if cs.has("props") {
+				sb.WriteString("SUMMARY:method uid\\, vtimezone\r\nRRULE:FREQ=DAILY;COUNT=3\r\nATTENDEE;CN=UID:mailto:uid@example.com\r\nX-UID:other\r\nRELATED-TO:u2\r\n")
+			}
+			if cs.has("valarm") && (c.Type == "VEVENT" || c.Type == "VTODO") {
+				sb.WriteString("BEGIN:VALARM\r\nACTION:DISPLAY\r\nTRIGGER:-PT5M\r\nDESCRIPTION:x\r\nEND:VALARM\r\n")
+			}
+		}
+		for _, s := range c19Subs(cs, i, c) {
+			writeSub(s)
+		}
+		sb.WriteString("END:" + c.Type + "\r\n")
+	}
+	sb.WriteString("END:VCALENDAR\r\n")
+	if cs.has("lower-case-names") {
+		return c19LowerNames(sb.String())
+	}
+	return sb.String()
+}
+
+func c19Build(cs c19Case) (*ical.Calendar, error) {
+	if cs.ViaText {
+		cal, err := ical.NewDecoder(strings.NewReader(c19Text(cs))).Decode()
+		if err != nil {
+			return nil, err
+		}
+		c19Post(cal, cs)
+		return cal, nil
+	}
+	times := 1
+	if cs.has("doubled") {
+		times = 2
 	}
 	cal := ical.NewCalendar()
 	cal.Props.SetText(ical.PropVersion, "2.0")
@@ -172,20 +328,46 @@ func c19Build(cs c19Case) (*ical.Calendar, error) {
 	if cs.Method {
 		mp := ical.NewProp(ical.PropMethod)
 		mp.Value = cs.MethodVal
-		cal.Props.Set(mp)
+		for k := 0; k < times; k++ {
+			cal.Props.Add(mp)
+		}
 	}
-	for _, c := range cs.Comps {
+	var mkSub func(s c19Sub) *ical.Component
+	mkSub = func(s c19Sub) *ical.Component {
+		sub := ical.NewComponent(s.name)
+		sub.Props.SetText(ical.PropUID, s.uid)
+		if s.name == "VALARM" {
+			sub.Props.SetText(ical.PropAction, "DISPLAY")
+			sub.Props.SetText(ical.PropDescription, "x")
+		}
+		if s.inner != nil {
+			sub.Children = append(sub.Children, mkSub(*s.inner))
+		}
+		return sub
+	}
+	for i, c := range cs.all() {
 		comp := ical.NewComponent(c.Type)
-		switch {
-		case c.RawUID || c.Binary || c.Spelled:
+		if c.UID != "" || c.RawUID {
 			up := ical.NewProp(ical.PropUID)
-			up.Value = c.UID
+			if c.RawUID || c.Binary || c.Spelled {
+				up.Value = c.UID
+			} else {
+				up.SetText(c.UID)
+			}
 			if c.Binary {
 				up.Params.Set(ical.ParamValue, "BINARY")
+			} else if cs.has("uid-params") {
+				p := c19UIDParams[i%len(c19UIDParams)]
+				up.Params.Set(p[0], p[1])
 			}
-			comp.Props.Set(up)
-		case c.UID != "":
-			comp.Props.SetText(ical.PropUID, c.UID)
+			for k := 0; k < times; k++ {
+				comp.Props.Add(up)
+			}
+		}
+		if c.UID2 != "" {
+			up := ical.NewProp(ical.PropUID)
+			up.SetText(c.UID2)
+			comp.Props.Add(up)
 		}
 		if c.Type == "VTIMEZONE" {
 			comp.Props.SetText(ical.PropTimezoneID, "Europe/Paris")
@@ -218,15 +400,72 @@ func c19Build(cs c19Case) (*ical.Calendar, error) {
 				comp.Children = append(comp.Children, al)
 			}
 		}
+		for _, s := range c19Subs(cs, i, c) {
+			comp.Children = append(comp.Children, mkSub(s))
+		}
 		cal.Children = append(cal.Children, comp)
 	}
+	c19Post(cal, cs)
 	return cal, nil
 }
 
+// c19Post gives the calendar, however it was built, the empty map entries of
+// "nil-entries" / "emptied-entries": a name a component has no property of
+// (UID; METHOD on the calendar; X-GONE everywhere) gets a list of no values.
+func c19Post(cal *ical.Calendar, cs c19Case) {
+	nilE, emptied := cs.has("nil-entries"), cs.has("emptied-entries")
+	if !nilE && !emptied {
+		return
+	}
+	blank := func(props ical.Props, name string) {
+		if _, ok := props[name]; ok {
+			return
+		}
+		if emptied {
+			// what an application leaves behind that drops the values of a
+			// property it does not want by filtering the list in place
+			p := ical.NewProp(name)
+			p.Value = "REQUEST"
+			props.Add(p)
+			kept := props[name][:0]
+			props[name] = kept
+		} else {
+			props[name] = nil
+		}
+	}
+	blank(cal.Props, ical.PropMethod)
+	blank(cal.Props, "X-GONE")
+	var walk func(comp *ical.Component)
+	walk = func(comp *ical.Component) {
+		blank(comp.Props, ical.PropUID)
+		blank(comp.Props, "X-GONE")
+		for _, ch := range comp.Children {
+			walk(ch)
+		}
+	}
+	for _, ch := range cal.Children {
+		walk(ch)
+	}
+}
+
+// c19Family names the part of the case that the rule does not look at, for
+// finding keys ("" for a plain calendar).
+func c19Family(cs c19Case) string {
+	f := ""
+	if cs.has("nested-uid-same") || cs.has("nested-uid-other") {
+		f += "|nested-uid"
+	}
+	if cs.has("nil-entries") || cs.has("emptied-entries") {
+		f += "|empty-map-entries"
+	}
+	return f
+}
+
 func c19Class(cs c19Case) string {
+	comps := cs.all()
 	types := map[string]bool{}
 	uids := map[string]bool{}
-	for _, c := range cs.Comps {
+	for _, c := range comps {
 		if c.Type != "VTIMEZONE" {
 			types[c.Type] = true
 		}
@@ -241,13 +480,23 @@ func c19Class(cs c19Case) string {
 		return n
 	}
 	firstTZ, firstNoUID := false, false
-	if len(cs.Comps) > 0 {
-		firstTZ = cs.Comps[0].Type == "VTIMEZONE"
-		firstNoUID = cs.Comps[0].UID == ""
+	if len(comps) > 0 {
+		firstTZ = comps[0].Type == "VTIMEZONE"
+		firstNoUID = comps[0].UID == ""
 	}
-	n := len(cs.Comps)
-	if n > 6 {
-		n = 7
+	// length: exact up to 6, then by order of magnitude
+	n := fmt.Sprint(len(comps))
+	switch {
+	case len(comps) >= 100000:
+		n = "1e5+"
+	case len(comps) >= 10000:
+		n = "1e4+"
+	case len(comps) >= 1000:
+		n = "1e3+"
+	case len(comps) >= 100:
+		n = "1e2+"
+	case len(comps) > 6:
+		n = "7"
 	}
 	mcls := fmt.Sprint(cs.Method)
 	if cs.Method && cs.MethodVal != "PUBLISH" {
@@ -259,7 +508,7 @@ func c19Class(cs c19Case) string {
 	if c19HasBadUID(cs) {
 		mcls += "+malformed-uid"
 	}
-	return fmt.Sprintf("m=%v|types=%d|uids=%d|firstTZ=%v|firstNoUID=%v|n=%d|text=%v",
+	return fmt.Sprintf("m=%v|types=%d|uids=%d|firstTZ=%v|firstNoUID=%v|n=%s|text=%v",
 		mcls, cap2(len(types)), cap2(len(uids)), firstTZ, firstNoUID, n, cs.ViaText)
 }
 
@@ -275,6 +524,10 @@ func c19Exec(c *fw.Ctx, cs c19Case) {
 	c.Eval(1)
 	cls := c19Class(cs)
 	c.Distinct(cls)
+	for _, e := range cs.Extras {
+		c.Observe("extras", e, 1)
+	}
+	cls += c19Family(cs)
 	if c.WantSample() && len(cs.Comps) >= 2 {
 		c.Sample(map[string]interface{}{"case": cs, "type": typ, "uid": uid, "err": fw.ErrString(verr)})
 	}
@@ -296,7 +549,7 @@ func c19Exec(c *fw.Ctx, cs c19Case) {
 		// only the rejection invariant above applies
 	case open:
 		if got && uid != muid {
-			c.Report("accept-wrong-uid|no-typed-component", fmt.Sprintf("accepted with uid=%q, want %q", uid, muid), cs)
+			c.Report("accept-wrong-uid|no-typed-component"+c19Family(cs), fmt.Sprintf("accepted with uid=%q, want %q", uid, muid), cs)
 		}
 	case accept && !got:
 		c.Report("rejects-valid|"+cls, fmt.Sprintf("valid object rejected: %v", verr), cs)
@@ -403,13 +656,43 @@ func c19Revalidate(c *fw.Ctx, idx *int) {
 }
 
 func c19HasBadUID(cs c19Case) bool {
+	bad := func(c c19Comp) bool { return c.RawUID || c.Binary || c.UID2 != "" }
 	for _, c := range cs.Comps {
-		if c.RawUID || c.Binary {
+		if bad(c) {
 			return true
 		}
 	}
-	return false
+	return cs.Fill != nil && cs.Fill.N > 0 && bad(cs.Fill.Comp)
 }
+
+// c19Sizes: 2^k (k >= 5) up to max2 and 10^k (k >= 2) up to max10, each with
+// its two neighbours, ascending.
+func c19Sizes(max2, max10 int) []int {
+	var out []int
+	for b := 32; b <= max2; b *= 2 {
+		out = append(out, b-1, b, b+1)
+	}
+	for b := 100; b <= max10; b *= 10 {
+		out = append(out, b-1, b, b+1)
+	}
+	return out
+}
+
+func c19Magnitude(n int) string {
+	switch {
+	case n >= 100000:
+		return ">=100000"
+	case n >= 10000:
+		return "10000.."
+	case n >= 1000:
+		return "1000.."
+	case n >= 100:
+		return "100.."
+	}
+	return "<100"
+}
+
+var c19RandExtras = []string{"tzid-match", "valarm", "props", "x-method", "nested-uid-same", "nested-uid-other", "nil-entries", "emptied-entries", "doubled", "uid-params", "lower-case-names"}
 
 func c19Run(c *fw.Ctx) {
 	uids := []string{"", "u1", "u2"}
@@ -424,6 +707,16 @@ func c19Run(c *fw.Ctx) {
 				cs := c19Case{Method: m, Comps: append([]c19Comp(nil), prefix...)}
 				c19Exec(c, cs)
 				c.Observe("universe", "enumerated", 1)
+				if len(prefix) <= 4 {
+					// the same sequence as go-ical reads it from text
+					// (METHOD:PUBLISH there, a METHOD without a value above)
+					cs.ViaText = true
+					if m {
+						cs.MethodVal = "PUBLISH"
+					}
+					c19Exec(c, cs)
+					c.Observe("universe", "enumerated-via-text", 1)
+				}
 			}
 			idx++
 		}
@@ -441,7 +734,7 @@ func c19Run(c *fw.Ctx) {
 	// the presence of the property, not its value), and UIDs that are not
 	// valid TEXT, each over all sequences of <= 3 components.
 	methodVals := []string{"PUBLISH", "", ",PUBLISH", "REQUEST", "publish", " ", "\\", "X-CUSTOM"}
-	badUIDs := []c19Comp{{UID: "abc\\", RawUID: true}, {UID: "a\\xb", RawUID: true}, {UID: "AAEC", Binary: true}, {UID: "", RawUID: true}}
+	badUIDs := []c19Comp{{UID: "abc\\", RawUID: true}, {UID: "a\\xb", RawUID: true}, {UID: "AAEC", Binary: true}, {UID: "", RawUID: true}, {UID: "u1", UID2: "u2"}, {UID: "u2", UID2: "u1"}}
 	var rec2 func(prefix []c19Comp)
 	rec2 = func(prefix []c19Comp) {
 		for _, mv := range methodVals {
@@ -514,7 +807,12 @@ func c19Run(c *fw.Ctx) {
 	// VTIMEZONE defining them, before or after their use; nested VALARMs;
 	// calendar properties that merely resemble METHOD; ordinary properties):
 	// every sequence of <= 3 components, each extras set, both build paths.
-	extraSets := [][]string{{"tzid-match"}, {"tzid-other"}, {"valarm"}, {"x-method"}, {"props"}, {"tzid-match", "tzid-other", "valarm", "x-method", "props"}}
+	// Likewise what nested components carry, the representation of an absent
+	// property in go-ical's map of lists, properties standing twice, UID
+	// parameters and the letter case of names (see c19Case.Extras).
+	extraSets := [][]string{{"tzid-match"}, {"tzid-other"}, {"valarm"}, {"x-method"}, {"props"}, {"tzid-match", "tzid-other", "valarm", "x-method", "props"},
+		{"nested-uid-same"}, {"nested-uid-other"}, {"nil-entries"}, {"emptied-entries"}, {"doubled"}, {"uid-params"}, {"lower-case-names"},
+		{"nested-uid-same", "nested-uid-other", "valarm", "nil-entries", "doubled", "uid-params", "lower-case-names"}}
 	var rec4 func(prefix []c19Comp)
 	rec4 = func(prefix []c19Comp) {
 		for _, ex := range extraSets {
@@ -590,6 +888,37 @@ func c19Run(c *fw.Ctx) {
 		}
 		idx++
 	}
+	// Size plays no part: the same few shapes (valid; the one conflicting UID
+	// resp. type at the very end; the only UID at the very end; time zones
+	// only; METHOD) at every length of a ladder of powers of two and of ten,
+	// each with its two neighbours, built in memory and (up to a bound) parsed
+	// from text.
+	for _, n := range c19Sizes(c.Pick(1<<16, 1<<18), 100000) {
+		ev, td, tz := c19Comp{Type: "VEVENT", UID: "u1"}, c19Comp{Type: "VTODO"}, c19Comp{Type: "VTIMEZONE"}
+		shapes := []c19Case{
+			{Comps: []c19Comp{tz, ev}, Fill: &c19Fill{N: n, Comp: ev, At: 2}},
+			{Comps: []c19Comp{{Type: "VEVENT", UID: "u2"}}, Fill: &c19Fill{N: n, Comp: ev, At: 0}},
+			{Comps: []c19Comp{{Type: "VTODO", UID: "u2"}}, Fill: &c19Fill{N: n, Comp: td, At: 0}},
+			{Comps: []c19Comp{{Type: "VTODO", UID: "u1"}}, Fill: &c19Fill{N: n, Comp: ev, At: 0}},
+			{Comps: []c19Comp{ev, ev}, Fill: &c19Fill{N: n, Comp: tz, At: 1}},
+			{Fill: &c19Fill{N: n, Comp: tz}},
+			{Method: true, MethodVal: "PUBLISH", Fill: &c19Fill{N: n, Comp: c19Comp{Type: "VJOURNAL", UID: "u1"}}},
+		}
+		for _, cs := range shapes {
+			for _, text := range []bool{false, true} {
+				if text && n > c.Pick(5000, 70000) {
+					continue
+				}
+				if c.Mine(idx) {
+					cs.ViaText = text
+					c19Exec(c, cs)
+					c.Observe("universe", "size-ladder", 1)
+					c.Observe("size-ladder components", c19Magnitude(n), 1)
+				}
+				idx++
+			}
+		}
+	}
 	// The verdict is a function of the calendar as it is NOW: validate, edit
 	// the same object in place (same number of components), validate again.
 	c19Revalidate(c, &idx)
@@ -635,6 +964,20 @@ func c19Run(c *fw.Ctx) {
 			}
 			cs.Comps = append(cs.Comps, c19Comp{Type: t, UID: u})
 		}
+		// one calendar in four carries content the rule does not look at
+		if r.Intn(4) == 0 {
+			for _, e := range c19RandExtras {
+				if r.Intn(4) == 0 {
+					cs.Extras = append(cs.Extras, e)
+				}
+			}
+		}
+		// one in 64 is long: 30 .. 30000 further components of the main kind
+		// (length log-uniform) somewhere in the sequence
+		if r.Intn(64) == 0 {
+			cs.Fill = &c19Fill{N: int(30 * math.Pow(1000, r.Float64())), Comp: c19Comp{Type: mainT, UID: mainU}, At: r.Intn(len(cs.Comps) + 1)}
+			c.Observe("universe", "random-long", 1)
+		}
 		c19Exec(c, cs)
 		c.Observe("universe", "random", 1)
 	}
@@ -651,11 +994,15 @@ func init() {
 			}
 		},
 		Rule: "exhaustive: every sequence of <=5 (thorough <=6) components over {VEVENT,VTODO,VJOURNAL,VFREEBUSY,VTIMEZONE} x UID{absent,u1,u2} x METHOD{absent,present}; " +
-			"random: calendars of up to 29 components biased to nearly-valid, half parsed from iCalendar text by go-ical. " +
+			"random: calendars of up to 29 components biased to nearly-valid, half parsed from iCalendar text by go-ical; one in four with content the rule does not look at, one in 64 with 30..30000 further components. " +
+			"families over all sequences of <=3 components: METHOD value spellings, malformed / doubled-with-another-value UIDs (open), unusual component names, irrelevant content (TZID parameters, VALARM, X-METHOD, ordinary properties, nested components with UIDs of their own, map entries without values, properties standing twice, UID parameters, lower-case names); similar UIDs; one UID in several spellings; size ladder 2^5..2^16 (thorough 2^18), 10^2..10^5, each +-1, seven shapes; revalidation after in-place edits. " +
 			"distinct_nontrivial counts distinct abstract classes (METHOD, #non-VTIMEZONE types capped at 2, #UIDs capped at 2, first component is VTIMEZONE, first component lacks UID, length, text/in-memory).",
 		Assumptions: []string{
 			"UID values are non-empty valid TEXT (empty or malformed UID values are outside the statement's domain)",
 			"a calendar without any non-VTIMEZONE component: accept/reject and returned type are left open by the statement; only 'rejection returns empty results' and the UID are checked there",
+			"the components of a calendar are its direct children (the type clause would otherwise refuse every VEVENT with a VALARM): what nested components carry plays no part",
+			"a property name whose value list in go-ical's Props map is empty or nil is a property the calendar does not have (Props.Get / Props.Values / the encoder agree)",
+			"a component with two UID properties of different values: accept/reject left open",
 		},
 		MinEvals:    func(t string) int64 { return 100000 },
 		MinDistinct: func(t string) int64 { return 100 },
